@@ -634,6 +634,27 @@ Proof.
       rewrite (other_in_kind _ _ H). apply N.ltb_ge. lia.
 Qed.
 
+(* ================================================================== summaries used by props/C01.v *)
+Theorem tables_cover :
+  (forall o k, In k (rnames o) -> krow k = Some (vrow o)) /\
+  (forall o k, In k (rnames o) -> In k rs_optypes) /\
+  (forall k, In k rs_optypes -> exists o, In k (rnames o)).
+Proof. exact (conj vrow_total (conj rnames_are_optypes optypes_modelled)). Qed.
+
+Theorem ports_match : forall o,
+  is_some (df_sig o) = rw_sig (vrow o) /\
+  is_some (inner_sig o) = rw_dfparent (vrow o) /\
+  kclass (static_in o) = rw_static_in (vrow o) /\
+  kclass (static_out o) = rw_static_out (vrow o) /\
+  kclass (fst (other_in o)) = rw_other_in (vrow o) /\
+  kclass (fst (other_out o)) = rw_other_out (vrow o) /\
+  r_count o (rw_cnt_in (vrow o)) (rw_other_in (vrow o)) = Some (snd (other_in o)) /\
+  r_count o (rw_cnt_out (vrow o)) (rw_other_out (vrow o)) = Some (snd (other_out o)).
+Proof.
+  intros o. destruct (signature_matches o) as (A & B & _). destruct (static_ports_match o) as (C & D & _).
+  destruct (other_ports_match o) as (E & F & G & H). repeat split; assumption.
+Qed.
+
 (* ================================================================== non-vacuity *)
 Example ex_lattice : is_superset "DataflowChild" "FuncDefn" = true /\ is_superset "DataflowChild" "Function" = false /\
                      is_superset "DataflowParent" "Case" = true /\ Sup "Any" "DataflowBlock".
